@@ -20,7 +20,7 @@ RULE = ("Each case = a corpus of 20-90 documents over a skewed 8-word vocabulary
         "search(q, limit=None) (descending score, ascending document number on ties; score tolerance 1e-9, boundary "
         "ties broken by document number). Non-trivial = the limited run actually skipped blocks or replaced the matcher "
         "against a positive minimum score and k < number of hits; distinct by SHA-1 of (weighting kind, query shape, k, "
-        "layout).")
+        "layout). binaryroots: the same oracle on the shapes whose quality skipping has to re-align two sides (and-not, and + not, and-maybe, require, three-way and over frequent terms), 1-2 segments of 15-45 documents, posting blocks of 1-4 entries.")
 ASSUMPTIONS = [
     "the exhaustive search (limit=None) is the reference ranking; its own set/score correctness is C01/C09",
     "k < doc_count (otherwise whoosh uses the exhaustive collector for limited searches too)",
@@ -86,6 +86,34 @@ def strategy(tier):
         "schema": st.fixed_dictionaries({"t_boost": st.sampled_from([1.0, 2.0])}),
         "queries": st.lists(query_s(), min_size=4, max_size=4),
         "weighting": weighting_s(),
+    })
+
+
+def strategy_binary(tier):
+    """the same check on the shapes whose quality skipping has to re-align two sides: and-not, and + not, and-maybe,
+    require over frequent terms, few long segments, tiny posting blocks"""
+    word = st.sampled_from(VOC[:4])
+    term = st.builds(lambda x, b: {"op": "term", "f": "t", "x": x, "boost": b}, word, gen.boost_s)
+    side = st.one_of(term, term, st.builds(lambda a, b: {"op": "or", "qs": [a, b], "boost": 1.0}, term, term))
+    q = st.one_of(
+        st.builds(lambda a, b: {"op": "andnot", "a": a, "b": b}, side, term),
+        st.builds(lambda a, b: {"op": "and", "qs": [a, {"op": "not", "q": b}], "boost": 1.0}, side, term),
+        st.builds(lambda a, b: {"op": "andmaybe", "a": a, "b": b}, side, side),
+        st.builds(lambda a, b: {"op": "require", "a": a, "b": b}, side, term),
+        st.builds(lambda a, b, c: {"op": "and", "qs": [a, b, c], "boost": 1.0}, term, term, side),
+    )
+    tok = st.sampled_from(SKEW)
+    doc = st.tuples(st.lists(tok, min_size=1, max_size=10), st.sampled_from([1.0, 1.0, 0.5, 2.0]),
+                    st.integers(-20, 20), st.sampled_from(["g1", "g2", "g3"]))
+    return st.fixed_dictionaries({
+        "segments": st.lists(st.lists(doc, min_size=15, max_size=45), min_size=1, max_size=2),
+        "blocklimit": st.sampled_from([1, 2, 2, 3, 4]),
+        "delete": st.lists(st.integers(0, 200), max_size=4),
+        "optimize": st.just(False),
+        "schema": st.fixed_dictionaries({"t_boost": st.just(1.0)}),
+        "queries": st.lists(q, min_size=4, max_size=4),
+        "weighting": st.one_of(st.just({"kind": "bm25f", "B": 0.75, "K1": 1.2, "t_B": None}), st.just({"kind": "tfidf"}),
+                               st.just({"kind": "frequency"})),
     })
 
 
@@ -232,4 +260,5 @@ def run(case, out):
 
 SUBS = {
     "topk": Sub(run, strategy, quick=80, thorough=500, quick_shards=8),
+    "binaryroots": Sub(run, strategy_binary, quick=60, thorough=600, quick_shards=8),
 }
